@@ -20,7 +20,12 @@ function names are literal).  Only the HOLES are translated:
   * loop guards: one comparison < <= > >= of two such expressions (`a > b` is printed as `b < a`);
   * the None default of batch_size (conditional expression or if/else statement, `is None` or `is not None`);
   * fancy-index expressions: the index array itself, np.sort(e), np.flip(e), e[::-1];
-  * which array a call of the training step reads (X_batch or X, affinity_batch or affinity);
+  * which array a call of the training step reads (X_batch or X, affinity_batch or affinity); keyword spellings of the
+    matched calls (`self._infer(X=X_batch)`, `self._batchify(X, affinity_matrix=affinity, random_state=random_state)`, ...)
+    are first rewritten to the positional form using the callee's own parameter names;
+  * whether the epoch loop of fit advances the generator lazily (`for .. in self._batchify(..)`) or exhausts it first
+    (`batches = list(self._batchify(..)); for .. in batches`): the mlcl decoration records the true indices of a
+    batch when it is yielded;
   * the float arithmetic of the validation score (+ - * / over the names in scope, len(..) as nofnat; the two
     operands of + and * are printed in a fixed order: IEEE + and * commute exactly).
 Anything else - an unexpected statement, an extra statement, an unknown expression node, a changed call -
@@ -355,6 +360,52 @@ def none_branches(c, subject, what):
     fail(f"{what}: the test is not `{subject} is (not) None`: `{t}`", c)
 
 
+# ------------------------------------------------------------------ keyword spellings of the matched calls
+class Positional(ast.NodeTransformer):
+    """f(a, q=b) -> f(a, b) for the calls the skeleton matches (q the name of f's second parameter, ...): a keyword
+    spelling is the same call.  table: attribute / function name -> parameter names (without self).  A keyword that is
+    not a parameter, a repeated parameter, a gap or a * / ** argument is left alone (the matcher then fails closed)."""
+
+    def __init__(self, table):
+        self.table = table
+
+    def visit_Call(self, node):
+        self.generic_visit(node)
+        name = node.func.attr if isinstance(node.func, ast.Attribute) else node.func.id if isinstance(node.func, ast.Name) else None
+        params = self.table.get(name)
+        if params is None or not node.keywords or any(k.arg is None for k in node.keywords) \
+                or any(isinstance(a, ast.Starred) for a in node.args):
+            return node
+        slots = list(node.args) + [None] * (len(params) - len(node.args))
+        if len(node.args) > len(params):
+            return node
+        for k in node.keywords:
+            if k.arg not in params or slots[params.index(k.arg)] is not None:
+                return node
+            slots[params.index(k.arg)] = k.value
+        while slots and slots[-1] is None:
+            slots.pop()
+        if any(v is None for v in slots):
+            return node
+        node.args, node.keywords = slots, []
+        return node
+
+
+def call_table(base_cls, sparse_mod):
+    def params(fn, drop_self):
+        a = fn.args
+        if a.vararg or a.kwarg or a.kwonlyargs or a.posonlyargs:
+            fail(f"signature of {fn.name} changed shape", fn)
+        return [x.arg for x in a.args][1 if drop_self else 0:]
+    t = {m: params(find_def(base_cls.body, m, f"DiscriminativeModel.{m}"), True)
+         for m in ("_batchify", "_infer", "_compute_grads", "_update_weights")}
+    t["func"] = t["_batchify"]                  # decorate_batch(func): func is the undecorated _batchify
+    t["compute_val_score"] = params(find_def(sparse_mod.body, "compute_val_score", "compute_val_score"), False)
+    t["predict_proba"] = ["X"]
+    t["compute_affinity"] = ["X", "y"]
+    return t
+
+
 # ------------------------------------------------------------------ DiscriminativeModel._batchify
 def tr_batchify(cls, D, R):
     fn = find_def(cls.body, "_batchify", "DiscriminativeModel._batchify")
@@ -422,16 +473,18 @@ def training_context(stmts, obj, fn):
     return rs, gem, aff, w
 
 
-def tr_step(loop, obj, ctx, D, prefix):
-    """for XB, AB in <obj>._batchify(X, AFF, RS): the four calls of one optimiser step"""
+def tr_step(loop, obj, ctx, D, prefix, iterable=None):
+    """for XB, AB in <obj>._batchify(X, AFF, RS): the four calls of one optimiser step
+    (iterable: the name of a list holding list(<obj>._batchify(X, AFF, RS)), when the caller has matched that)"""
     rs, gem, aff, w = ctx
     if not isinstance(loop, ast.For) or loop.orelse:
         fail("the per-batch loop is not a plain for", loop)
     xb, ab = two_names(loop.target, "the per-batch loop")
     if {xb, ab} & {rs, gem, aff, w, "X", "y", obj}:
         fail("the per-batch loop rebinds a name of the skeleton", loop)
-    if src(loop.iter) != f"{obj}._batchify(X, {aff}, {rs})":
-        fail(f"the per-batch loop iterates over `{src(loop.iter)}` instead of `{obj}._batchify(X, {aff}, {rs})`", loop)
+    want = iterable or f"{obj}._batchify(X, {aff}, {rs})"
+    if src(loop.iter) != want:
+        fail(f"the per-batch loop iterates over `{src(loop.iter)}` instead of `{want}`", loop)
     b = clean(loop.body)
     expect_len(b, 4, "body of the per-batch loop", loop)
     rows = {xb: "SrcBatch", "X": "SrcAll"}
@@ -481,8 +534,18 @@ def tr_fit(cls, D, R):
         fail(f"the epoch loop does not iterate over range(<e>): `{src(lp.iter)}`", lp)
     D["fit_epochs"] = zexpr(lp.iter.args[0], {"self.max_iter": "max_iter"})
     body = clean(lp.body)
-    expect_len(body, 1, "body of the epoch loop of fit", lp)
-    tr_step(body[0], "self", ctx, D, "fit_")
+    if len(body) == 2:
+        # batches = list(self._batchify(X, AFF, RS)); for XB, AB in batches: ...   (the generator is exhausted first)
+        lst, v = bind(body[0], "the list of batches", set(ctx) | {"X", "y", "self", lp.target.id})
+        if src(v) != f"list(self._batchify(X, {ctx[2]}, {ctx[0]}))":
+            fail(f"the epoch loop of fit starts with `{src(body[0])[:100]}`", body[0])
+        D["fit_iter"] = "IterEager"
+        tr_step(body[1], "self", ctx, D, "fit_", iterable=lst)
+        body = [body[1]]
+    else:
+        expect_len(body, 1, "body of the epoch loop of fit", lp)
+        D["fit_iter"] = "IterLazy"
+        tr_step(body[0], "self", ctx, D, "fit_")
     # no other training step / batching / loop exit anywhere in fit
     for n in ast.walk(fn):
         if isinstance(n, (ast.Break, ast.Continue)):
@@ -688,11 +751,13 @@ Definition batch_rules : BatchRules := {{|
 (* ---- DiscriminativeModel.fit ---- *)
 (* for i in range(<e>): *)
 Definition fit_epochs (max_iter : Z) : Z := {fit_epochs}.
+(* for X_batch, affinity_batch in self._batchify(..): IterLazy    batches = list(self._batchify(..)); for .. in batches: IterEager *)
+Definition fit_iter : Iter := {fit_iter}.
 (* self.n_iter_ = <e> *)
 Definition fit_n_iter (max_iter : Z) : Z := {fit_n_iter}.
 (* y_pred = self._infer(<.>); _, grads = gemini(y_pred, <.>, return_grad=True); grads = self._compute_grads(<.>, y_pred, grads) *)
 Definition fit_step_rules : StepRules := {{| s_infer_x := {fit_infer_x}; s_gemini_aff := {fit_gemini_aff}; s_grads_x := {fit_grads_x} |}}.
-Definition fit_rules : FitRules := {{| f_epochs := fit_epochs; f_n_iter := fit_n_iter; f_step := fit_step_rules |}}.
+Definition fit_rules : FitRules := {{| f_epochs := fit_epochs; f_iter := fit_iter; f_n_iter := fit_n_iter; f_step := fit_step_rules |}}.
 
 (* ---- sparse._base_sparse._run_path: the per-batch training loop ---- *)
 (* y_pred = clf._infer(<.>); _, grads = gemini_objective(y_pred, <.>, return_grad=True); grads = clf._compute_grads(<.>, y_pred, grads) *)
@@ -744,6 +809,9 @@ def translate():
     raws = {k: open(os.path.join(REPO, rel), "rb").read() for k, rel in FILES.items()}
     mods = {k: ast.parse(raw.decode("utf-8")) for k, raw in raws.items()}
     base_cls = find_class(mods["base"], "DiscriminativeModel")
+    norm = Positional(call_table(base_cls, mods["sparse"]))
+    for m in mods.values():
+        norm.visit(m)
     R.append(f"Source: {FILES['base']}  sha256 {hashlib.sha256(raws['base']).hexdigest()}")
     tr_batchify(base_cls, D, R)
     tr_fit(base_cls, D, R)
